@@ -1095,6 +1095,7 @@ func (d *drv) runRebuild(do func(Op)) {
 	}
 	wo()
 	do(Op{Ev: "Reload"})
+	wo() // writes that land after the reload and before UpdateLUNMap scans the head
 	if rng.Intn(2) == 0 {
 		do(Op{Ev: "UpdateLUNMap"})
 	} else {
